@@ -80,3 +80,31 @@ def register(reg):
         use_lemmas=["mirror_before_after", "mirror_tied"],
         gen=gen_table,
     )
+    register_all_tied(reg)
+
+
+def register_all_tied(reg):
+    from pyvc.types import Set
+    CM = "cost_matrix"
+    OKP = "%s[a][b][2] <= %s[a][b][0] and %s[a][b][2] <= %s[a][b][1]" % (CM, CM, CM, CM)
+    reg.contract(
+        F + "PairwiseBasedAlgorithm.can_be_all_tied", props=["C06", "C05"],
+        params=dict(id_elements_to_check=Set(), cost_matrix=Arr(Real, 3)), returns=Bool,
+        ghost=dict(n_=Int),
+        requires={
+            "shape": "len(cost_matrix) == n_ and len(cost_matrix[0]) == n_ and len(cost_matrix[0][0]) == 3",
+            "ids": "forall(lambda a: implies(id_elements_to_check[a], 0 <= a and a < n_))",
+            # mirror consistency of the table (C02.table.mirror): the test on one orientation of a pair decides both
+            "mirror": "forall(lambda a, b: cost_matrix[a][b][0] == cost_matrix[b][a][1] and "
+                      "cost_matrix[a][b][2] == cost_matrix[b][a][2], 0, n_, 0, n_)",
+        },
+        modifies=[],
+        ensures={
+            # C06.all_tied: True exactly when tying is a cheapest placement for every pair of distinct elements
+            "iff": "iff(result, forall(lambda a, b: implies(id_elements_to_check[a] and id_elements_to_check[b] and a != b, "
+                   + OKP + ")))",
+        },
+        loops={1: dict(inv={
+            "seen_ok": "forall(lambda a, b: implies(seen_pairs[a][b], " + OKP + "))",
+        })},
+    )
